@@ -74,6 +74,9 @@ SHAPES = {
     "in-macro": ("[a, b].map(x, f(x))[1]", ["a", "b"], 2, lambda v: _f(v["b"])),
     "in-cond": ("true ? f(a) : f(b)", ["a", "b"], None, lambda v: _f(v["a"])),
     "in-or": ("f(a) > 0 || f(b) > 0", ["a", "b"], None, lambda v: bool(_f(v["a"]) > 0 or _f(v["b"]) > 0)),
+    "in-or3": ("f(a) > 0 || f(b) > 0 || f(c) > 0", ["a", "b", "c"], None, lambda v: bool(_f(v["a"]) > 0 or _f(v["b"]) > 0 or _f(v["c"]) > 0)),
+    "in-and": ("f(a) > 0 && f(b) > 0", ["a", "b"], None, lambda v: bool(_f(v["a"]) > 0 and _f(v["b"]) > 0)),
+    "macro-or": ("[a, b].map(x, f(x) > 0 || x > 0)[1]", ["a", "b"], None, lambda v: bool(_f(v["b"]) > 0 or v["b"] > 0)),
 }
 
 
@@ -97,6 +100,12 @@ def call(shape, style, runner, vals):
         return False, f"{where} with {vals}: expected {want}, got {r!r}"
     if ncalls is not None and len(CALLS) != ncalls:
         return False, f"{where}: {len(CALLS)} invocations, expected {ncalls}"
+    if ncalls is None:
+        per_site = {}
+        for _, args in CALLS:
+            per_site[id(args[0]) if args else None] = per_site.get(id(args[0]) if args else None, 0) + 1
+        if not CALLS or max(per_site.values()) != 1:
+            return False, f"{where}: a call site was reached {sorted(per_site.values())} times (each at most once, the first operand's exactly once)"
     if shape in ("global1", "global2", "global3", "method1", "method2", "method3"):
         args = CALLS[-1][1]
         if [int(a) for a in args] != [vals[n] for n in names] or any(type(a).__name__ != "IntType" for a in args):
@@ -216,4 +225,24 @@ def reachable(case, runner, vals):
         kd, r = evaluate_outcome(lambda: make_program("size([a, b]) + 0", runner).evaluate(dict(bind)))
         if kd != "value" or int(r) != 2:
             return False, f"built-in size() in a later program under {runner}: {kd} {r!r:.80}"
+    return True, "ok"
+
+
+def one_env(runner, vals):
+    """several programs built from ONE Environment bind the same names to different callables: each runs its own"""
+    import operator
+    import celpy
+    from celpy import celtypes as ct
+    a = vals["a"]
+    R = celpy.InterpretedRunner if runner == "interp" else celpy.CompiledRunner
+    celpy.CELParser.CEL_PARSER = None
+    env = celpy.Environment(runner_class=R)
+    specs = [({"g": operator.neg}, "g(a) + a.g()", -2 * a), ({"g": operator.abs}, "g(a) + a.g()", 2 * abs(a)), ([operator.neg], "neg(a)", -a),
+             ({"g": operator.pos, "size": operator.neg}, "g(a) + size(a)", 0), ({"size": operator.abs}, "size(a)", abs(a))]
+    progs = [(src, want, env.program(env.compile(src), functions=fns)) for fns, src, want in specs]
+    for rnd in (0, 1):
+        for i, (src, want, prog) in enumerate(progs):
+            kd, r = evaluate_outcome(lambda: prog.evaluate({"a": ct.IntType(a)}))
+            if kd != "value" or int(r) != want:
+                return False, f"program {i} `{src}` (one Environment, {len(progs)} programs, round {rnd}) under {runner} with a={a}: expected {want} from its own functions, got {kd} {r!r:.80}"
     return True, "ok"
